@@ -85,7 +85,7 @@ CLAIMED['C19'] = dict(
 CLAIMED['C03'] = dict(
     text='Kernel-checked: tcp/rtu/ascii/tls/binary_build_spec (buildPacket = the specified ADU: MBAP with length = PDU + 1, CRC-16 low byte '
          'first, upper-case hex + LRC + CRLF, bare PDU, {..CRC}), crc_is_spec / lrc_is_spec (table-driven CRC = bit-serial CRC-16/Modbus for '
-         'every byte string; proofs in Props/Checksum.lean), whole_packet_delivers + request_roundtrip_tcp + response_roundtrip (a fresh '
+         'every byte string; proofs in Props/Checksum.lean), whole_packet_delivers + request_roundtrip (every framing) + response_roundtrip (a fresh '
          'receiver handed the packet delivers exactly the message with its ids), rtu_oracle_exact_req/resp (the RTU length oracle is exact and '
          'prefix-stable for the data-access classes); known-finding counterexamples (binary escaping, RTU diagnostic reply size).',
     design='6/C03', technique='Lean 4 proof (framer models vs ADU spec, CRC algebra) + differential correspondence',
